@@ -199,6 +199,7 @@ def verify_unit(uname, extra=(), want_vac=True, tag=""):
         "unit_obj": unit, "crate": crate,
         "functions": unit.functions, "types": unit.types, "clauses": unit.clauses,
         "edits": unit.edits, "macro_rewrites": unit.macro_rewrites, "hints_lost": unit.hints_lost,
+        "assumption_changed": unit.assumption_changed, "assume_pins": unit.assume_pins,
         "count_only": unit.count_only, "extract_failed": unit.extract_failed,
         "summary": summ, "failures": failures, "undecided": undecided,
         "cmd": main["cmd"], "trusted_scan": trusted_scan(unit.text()),
@@ -313,6 +314,8 @@ def cmd_unit(args):
             print("HINT-LOST %s: %s" % (fq, m))
     for fq, msg in (u.get("extract_failed") or {}).items():
         print("EXTRACT-FAILED %s: %s" % (fq, msg))
+    for msg in (u.get("assumption_changed") or []):
+        print("ASSUMPTION-CHANGED %s" % msg)
     for f in u["failures"]:
         print("FAIL  %-60s %s  [%s]" % (obligation_name(u, f), f["message"], ",".join(f.get("props", []))))
         print(f["rendered"])
@@ -441,6 +444,8 @@ def cmd_check(args):
             if fq in relevant_functions(u, pid):
                 undecided_msgs.append("%s: %s could not be extracted (%s): emitted as an assumed stub, its own obligations are undecided" % (
                     u["unit"], fq, msg[:240]))
+        for msg in u.get("assumption_changed", []):
+            undecided_msgs.append("%s: ASSUMED contract out of date — %s: everything proved against it is undecided until it is reviewed (tools/setpins.py)" % (u["unit"], msg))
         for fq, msgs in u.get("hints_lost", {}).items():
             if fq in relevant_functions(u, pid):
                 undecided_msgs.append("%s: proof scaffolding of %s no longer matches the code (%s); its obligations are undecided" % (
